@@ -29,6 +29,10 @@ AUDITED_INPUTS = {'&[u8]': None, 'codec::IoReader<R>': 'std', 'codec::BytesCurso
 
 def check_wrapper(out, facts, wname, rule='R08.1', own_methods=()):
     ms = {f['method']: f for f in facts.methods('Input') if f['kind'] == 'AssocFn' and wname in f['self']}
+    for m in sorted(set(ms) - set(SIX)):
+        out.fail(rule, '%s::%s[%s]' % (wname, m, facts.cfg),
+                 'input wrapper overrides %s, which is outside the six audited methods: bytes delivered through it bypass the wrapper\'s '
+                 'own bookkeeping (counter / limits) and the forwarding rules' % m, ms[m]['loc'])
     for m in SIX:
         key = '%s::%s[%s]' % (wname, m, facts.cfg)
         if m not in ms:
